@@ -1205,3 +1205,7 @@ reg(dict(
         "real time with 1 s ticks and +-1 s tolerance; sub-second timer behaviour is outside the claim",
         "expectations are computed from the statement by the generator, the model's own verdict is only used for conformance statistics",
     ]), ["C20"])
+
+import wire  # noqa: E402
+
+reg(dict(name="wire", kind="custom", run=wire.run_wire, replay=wire.replay_wire), ["C01", "C02", "C09", "C10"])
